@@ -335,6 +335,10 @@ class Gen:
         ih, ph = self.hd(i), self.hd(ip)
         if ih is None or ph is None:
             return None
+        for name, px in sorted(getattr(self.w, "proxies", {}).items()):
+            # the caller still holds the stand-in it once built for this pin (and may have connected it through it)
+            if px.instance is i and px.inner_pin is ip and self.r.random() < 0.5:
+                return {"k": "heldproxy", "h": name}
         kind = "proxy" if self.r.random() < self.cfg["proxy_rate"] else "stored"
         return {"k": kind, "i": ih, "p": ph}
 
